@@ -15,9 +15,14 @@ CONSTANTS Path
 
 ProdEv == IF Path = "add" THEN "fin.produce" ELSE "fin.finish"
 SendEv == IF Path = "add" THEN "hq.add" ELSE "hq.delete"
-Key(i) == IF Path = "add" THEN TraceLog[i].u ELSE TraceLog[i].id
+\* add path: an item is the line of its fin.produce event (the same URL text may be produced more than once);
+\* delete path: an item is a seed id - finished seeds, and the rows whose text is not a URL, which the consumer
+\* acknowledges itself as soon as the queue has handed them out (they never reach the finisher stage)
+Key(i) == IF Path = "add" THEN TraceLog[i].u ELSE i
+ItemOf(ln) == IF Path = "add" THEN ln ELSE TraceLog[ln].id
 Batch(e) == IF Path = "add" THEN [k \in 1..Len(e.urls) |-> e.urls[k].value] ELSE e.ids
-AllItems == {i \in 1..TraceLen : TraceLog[i].ev = ProdEv}
+Unparsable == IF Path = "add" THEN {} ELSE {TraceLog[i].id : i \in {j \in 1..TraceLen : TraceLog[j].ev = "queued" /\ HasKey(TraceLog[j], "unparsable")}}
+AllItems == {ItemOf(i) : i \in {j \in 1..TraceLen : TraceLog[j].ev = ProdEv}} \cup Unparsable
 ModeLine == CHOOSE i \in 1..TraceLen : TraceLog[i].ev = "c15.mode"
 StartLine == CHOOSE i \in 1..TraceLen : TraceLog[i].ev = "run.start"
 BS == IF Path = "add" THEN TraceLog[ModeLine].batch ELSE TraceLog[StartLine].workers
@@ -33,7 +38,7 @@ NextIsFirstAttempt == l <= TraceLen /\ TraceLog[l].ev = SendEv /\ sending = <<>>
 
 \* a produced item enters the model's view
 EvProduce == /\ l <= TraceLen /\ TraceLog[l].ev = ProdEv
-             /\ born' = born \cup {l} /\ l' = l + 1
+             /\ born' = born \cup {ItemOf(l)} /\ l' = l + 1
              /\ UNCHANGED <<todo, batch, chan, sending, server, faults, dropped>>
 \* silent: the receiver takes the item the coming attempt carries at the next position
 SilentRecv == /\ NextIsFirstAttempt /\ chan = <<>>
@@ -42,7 +47,7 @@ SilentRecv == /\ NextIsFirstAttempt /\ chan = <<>>
                  IN /\ k <= Len(B)
                     /\ LET cand == {i \in todo \cap born : Key(i) = B[k]} IN
                        /\ cand # {}
-                       /\ M!Recv(CHOOSE i \in cand : \A j \in cand : i <= j)
+                       /\ M!Recv(IF Path = "add" THEN CHOOSE i \in cand : \A j \in cand : i <= j ELSE CHOOSE i \in cand : TRUE)
               /\ UNCHANGED <<l, born>>
 SilentFlush == /\ NextIsFirstAttempt /\ chan = <<>> /\ batch # <<>> /\ Len(batch) = Len(Batch(TraceLog[l]))
                /\ (M!FlushFull \/ M!FlushTimer)
@@ -57,10 +62,14 @@ EvSend == /\ l <= TraceLen /\ TraceLog[l].ev = SendEv /\ sending # <<>>
 EvEnd == /\ l <= TraceLen /\ TraceLog[l].ev = "c15.end"
          /\ (TraceLog[l].drained => (todo \cap born = {} /\ batch = <<>> /\ chan = <<>> /\ sending = <<>> /\ born \subseteq server))
          /\ l' = l + 1 /\ UNCHANGED <<born, todo, batch, chan, sending, server, faults, dropped>>
-EvOther == /\ l <= TraceLen /\ TraceLog[l].ev \notin {ProdEv, SendEv, "c15.end"}
+\* the queue hands out rows: those that are not URLs are on their way to the acknowledgement from here on
+EvGet == /\ l <= TraceLen /\ TraceLog[l].ev = "hq.get" /\ Path = "delete"
+         /\ born' = born \cup ({TraceLog[l].urls[k].id : k \in 1..Len(TraceLog[l].urls)} \cap Unparsable)
+         /\ l' = l + 1 /\ UNCHANGED <<todo, batch, chan, sending, server, faults, dropped>>
+EvOther == /\ l <= TraceLen /\ TraceLog[l].ev \notin {ProdEv, SendEv, "c15.end"} /\ ~(TraceLog[l].ev = "hq.get" /\ Path = "delete")
            /\ l' = l + 1 /\ UNCHANGED <<born, todo, batch, chan, sending, server, faults, dropped>>
 
-TNext == EvProduce \/ SilentRecv \/ SilentFlush \/ SilentDispatch \/ EvSend \/ EvEnd \/ EvOther
+TNext == EvProduce \/ EvGet \/ SilentRecv \/ SilentFlush \/ SilentDispatch \/ EvSend \/ EvEnd \/ EvOther
 TSpec == TInit /\ [][TNext]_tvars
 Marked == Mark(l)
 \* the model's own invariant, evaluated on the states the real run went through
